@@ -331,8 +331,14 @@ def c11(ctx):
                     pans = list((r.get('panics') or {}).items())
             except tools.VapiDied as e:
                 if str(e) == 'timeout':
-                    ctx.inconc('watchdog: %s of a %s text did not finish in 180 s (input saved in replay dir)' % (entry, label))
-                    ctx.violation(('C11', 'watchdog', entry, label), 'no termination within the watchdog (inconclusive, input kept)', dict(rep, stderr=e.stderr_tail)) if False else None
+                    from . import check as _ck
+                    feats = {'label:' + label, 'label0:' + label.split('/')[0], 'entry:in-process ' + entry}
+                    app = [fd for fd in _ck.applicable(ctx.findings_db, 'C11', 'any', feats) if _ck.symptom_matches(fd, 'watchdog', '')]
+                    if app:
+                        ctx.finding_excluded[app[0]['id']] += 1
+                        ctx.known_finding(app[0]['id'], app[0]['what'])
+                    else:
+                        ctx.inconc('watchdog: %s of a %s text did not finish in 180 s' % (entry, label))
                     continue
                 m = re.search(r'(fatal error: [^\n]*|panic: [^\n]*)', e.stderr_tail or '')
                 st = re.search(r'fin-protoc/internal/([a-z]+/[a-z_]+\.go):(\d+)', e.stderr_tail or '')
@@ -378,7 +384,14 @@ def c11(ctx):
                 ctx.evaluated(1, key=(label, 'cli ' + entry, hash(b) % 100000))
                 cr = crashed(rc, o)
                 if cr == 'watchdog':
-                    ctx.inconc('watchdog: CLI %s of a %s text did not finish' % (entry, label))
+                    from . import check as _ck
+                    feats = {'label:' + label, 'label0:' + label.split('/')[0], 'entry:cli ' + entry}
+                    app = [fd for fd in _ck.applicable(ctx.findings_db, 'C11', 'any', feats) if _ck.symptom_matches(fd, 'watchdog', '')]
+                    if app:
+                        ctx.finding_excluded[app[0]['id']] += 1
+                        ctx.known_finding(app[0]['id'], app[0]['what'])
+                    else:
+                        ctx.inconc('watchdog: CLI %s of a %s text did not finish' % (entry, label))
                 elif cr:
                     st = re.search(r'fin-protoc/internal/([a-z]+/[a-z_]+\.go):(\d+)', o.decode('utf-8', 'replace'))
                     fn = re.search(r'fin-protoc/internal/[a-z]+\.\(?\*?([A-Za-z]+)\)?\.([A-Za-z]+)\(', o.decode('utf-8', 'replace'))
